@@ -465,6 +465,74 @@ def expand_table_dispatch(modules, known, rep):
                 break
 
 
+# ---------------------------------------------------------------------------------------------- N17 constant flags
+def thread_constant_flags(modules, known, rep):
+    """if C: ...; t = K1  else: ...; t = K2        (t a new local, K constants, t used nowhere else)
+       if <test over t>: X else: Y
+    is the first `if` with X / Y (whichever the constant selects) appended to each arm: the flag only carries the branch taken."""
+    kl = known.get("locals") or {}
+    for rel, sc, fn in all_functions(modules):
+        key = f"{rel}::{sc}.{fn.name}"
+        if key not in kl:
+            continue
+        known_locals = set(kl[key])
+        changed = True
+        while changed:
+            changed = False
+            for owner, fld, stmts in list(_blocks(fn)):
+                for i in range(len(stmts) - 1):
+                    s1, s2 = stmts[i], stmts[i + 1]
+                    if not (isinstance(s1, ast.If) and isinstance(s2, ast.If)):
+                        continue
+                    tnames = {n.id for n in ast.walk(s2.test) if isinstance(n, ast.Name)}
+                    if len(tnames) != 1:
+                        continue
+                    t = next(iter(tnames))
+                    if t in known_locals or t in _params(fn):
+                        continue
+                    loads = [n for n in ast.walk(fn) if isinstance(n, ast.Name) and n.id == t and isinstance(n.ctx, ast.Load)]
+                    if any(not any(n is x for x in ast.walk(s2.test)) for n in loads):
+                        continue
+                    stores = [n for n in ast.walk(fn) if isinstance(n, ast.Name) and n.id == t and isinstance(n.ctx, ast.Store)]
+                    arms = [s1.body, s1.orelse]
+                    consts = []
+                    ok = bool(s1.orelse)
+                    for arm in arms:
+                        asg = [x for x in arm if isinstance(x, ast.Assign) and len(x.targets) == 1 and isinstance(x.targets[0], ast.Name) and x.targets[0].id == t]
+                        nested = [n for x in arm if x not in asg for n in ast.walk(x) if isinstance(n, ast.Name) and n.id == t]
+                        if len(asg) != 1 or nested or not isinstance(asg[0].value, ast.Constant):
+                            ok = False
+                            break
+                        consts.append(asg[0])
+                    if not ok or len(stores) != 2:
+                        continue
+                    new_arms = []
+                    for arm, a in zip(arms, consts):
+                        class S(ast.NodeTransformer):
+                            def visit_Name(self, node):
+                                if node.id == t and isinstance(node.ctx, ast.Load):
+                                    return ast.copy_location(ast.Constant(a.value.value), node)
+                                return node
+                        test = S().visit(copy.deepcopy(s2.test))
+                        v = _fold_const_test(test)
+                        if v is None:
+                            ok = False
+                            break
+                        chosen = copy.deepcopy(s2.body if v else s2.orelse)
+                        new_arms.append([x for x in arm if x is not a] + chosen)
+                    if not ok:
+                        continue
+                    s1.body = new_arms[0] or [ast.copy_location(ast.Pass(), s1)]
+                    s1.orelse = new_arms[1]
+                    del stmts[i + 1]
+                    ast.fix_missing_locations(s1)
+                    rep.other.append(f"branch flag `{t}` in {sc + '.' if sc else ''}{fn.name} threaded into the branches that set it")
+                    changed = True
+                    break
+                if changed:
+                    break
+
+
 # ---------------------------------------------------------------------------------------------- N5 / N6 fresh locals
 def _class_attr_stores(modules):
     """class -> method -> set of self-attributes stored; class -> method -> set of self-methods called."""
